@@ -380,3 +380,23 @@ def has_adjacent_nullables(p: Proto) -> bool:
         return False
 
     return any(walk(p.rules[r]) for r in p.state_rules)
+
+
+def reuses_types(p: Proto) -> bool:
+    """Does some message type occur with more than one (sender, recipient) pair?"""
+    pairs: dict = {}
+
+    def walk(n):
+        k = n[0]
+        if k == "nt":
+            if p.is_msg(n):
+                pairs.setdefault(n[1], set()).add((n[2], n[3]))
+        elif k in ("cat", "alt"):
+            for x in n[1]:
+                walk(x)
+        elif k in ("star", "plus", "opt", "rep"):
+            walk(n[1])
+
+    for r in p.state_rules:
+        walk(p.rules[r])
+    return any(len(v) > 1 for v in pairs.values())
